@@ -1417,13 +1417,15 @@ func C03ListConcatenationWithCollect(q *cypher.RegularQuery) bool {
 
 // C03AggregateInWhere: `match (n) where count(*) > 1 return n` – openCypher rejects an aggregate in WHERE; DAWGS
 // emits it and PostgreSQL rejects it ("aggregate functions are not allowed in WHERE"). Shape: an aggregate call
-// below a WHERE.
+// below a WHERE or inside a MATCH pattern (inline property maps become WHERE conjuncts).
 func C03AggregateInWhere(q *cypher.RegularQuery) bool {
 	found := false
 	C03WalkModel(q, func(n any, anc []any) bool {
 		if c03IsAggregate(n) {
 			for _, a := range anc {
-				if _, isWhere := a.(*cypher.Where); isWhere {
+				switch a.(type) {
+				case *cypher.Where, *cypher.Match:
+					// a property map of a pattern is a WHERE conjunct in disguise
 					found = true
 				}
 			}
